@@ -36,7 +36,7 @@ impl Property for C03 {
              "tolerance 1e-9*(1+reach)*(1+max|q|*1e-3) for position, 1e-9*(1+max|q|*1e-3) rad for rotation".into()]
     }
     fn plan(&self, tier: Tier) -> Plan {
-        Plan { workers: tier.pick(4, 16), cases_per_worker: tier.pick(12_500, 312_500), max_shrink_iters: 4000 }
+        Plan { workers: tier.pick(4, 16), cases_per_worker: tier.pick(250_000, 2_000_000), max_shrink_iters: 4000 }
     }
     fn selftest(&self) -> Result<serde_json::Value, String> {
         crate::selftest::model_vs_recorded()
